@@ -823,6 +823,15 @@ pub fn c12(a: &Args) -> CaseSet {
         // flat expression prints its source text
         let t2 = text.clone();
         cs.add(&tb, Prog::Flat(text.clone()), vec![Query::Unparse], text.clone(), "flat-text-identity", n_operands(&ch), move |obs| (Some(obs[0] == Obs::Str(t2.clone())), pretty_obs(&obs[0])));
+        if i % 2 == 0 {
+            // serialising and deserialising a parsed flat expression: the same text, variables and value
+            let (t3, tb3, want3, vars3) = (text.clone(), tb.clone(), want.clone(), vars.clone());
+            let qs3 = vec![Query::Vars, Query::Eval(nv), Query::Unparse];
+            let qs3b = qs3.clone();
+            cs.add(&tb, Prog::SerdeFlat(Box::new(if i % 4 == 0 { Prog::Flat(text.clone()) } else { Prog::FlatWo(text.clone()) })), qs3, format!("serde round trip of {text}"), "serde-round-trip", n_operands(&ch), move |obs| {
+                if obs[2] != Obs::Str(t3.clone()) { return (Some(false), format!("text after the round trip: {}", pretty_obs(&obs[2]))) }
+                expect_value(&tb3, &want3, &vars3, obs, &qs3b) });
+        }
         // derived expressions: conversions and one operator application, then print and parse again
         let mut base = match i % 3 { 0 => Prog::Deep(text.clone()), 1 => Prog::ToDeep(Box::new(Prog::Flat(text.clone()))), _ => Prog::ToFlat(Box::new(Prog::Deep(text.clone()))) };
         let (mut wchain, mut wvars, mut wterm) = (ch.clone(), vars.clone(), want.clone());
@@ -831,7 +840,7 @@ pub fn c12(a: &Args) -> CaseSet {
             if !uns.is_empty() { let u = *r.pick(&uns); base = Prog::Un(tb[u].repr.clone(), Box::new(base)); wchain = Chain { first: Box::new(Atom::Group(vec![u], wchain)), rest: vec![] }; wvars = sorted_vars(&wchain); wterm = ref_chain(&wchain, &tb, &wvars); }
         }
         let _ = nv;
-        let re = if r.chance(1, 2) { Prog::ReFlat(Box::new(base.clone())) } else { Prog::ReDeep(Box::new(base.clone())) };
+        let re = match r.below(3) { 0 => Prog::ReFlat(Box::new(base.clone())), 1 => Prog::ReDeep(Box::new(base.clone())), _ => Prog::SerdeFlat(Box::new(base.clone())) };
         // the property only speaks about expressions whose printed literals are literals: when folding produced a
         // non-literal value the printed text contains the marker and the round trip is out of scope (oracle skipped)
         let qs = vec![Query::Vars, Query::Eval(wvars.len())];
@@ -877,7 +886,7 @@ pub fn c12d(a: &Args) -> CaseSet {
         ];
         for (k, (derived, family)) in alldev.into_iter().enumerate() {
         if k > 0 && !(a.thorough || i % 2 == 0 || i < 12) { continue }
-        let re = if (i + k) % 2 == 0 { Prog::ReFlat(Box::new(derived.clone())) } else { Prog::ReDeep(Box::new(derived.clone())) };
+        let re = match (i + k) % 3 { 0 => Prog::ReFlat(Box::new(derived.clone())), 1 => Prog::ReDeep(Box::new(derived.clone())), _ => Prog::SerdeFlat(Box::new(derived.clone())) };
         // oracle: the reparsed expression has the value of the printed one wherever the printed text is made of literals;
         // its variables are those of the printed one that still occur in the text (F6: the others vanish)
         let qs = vec![Query::Vars, Query::Relaxed(nv), Query::Unparse];
@@ -1285,13 +1294,15 @@ pub fn c09(a: &Args) -> CaseSet {
         let prog = Prog::Partial(idxs.clone(), mode, Box::new(mk(&mut r)));
         // the same derivative as a sequence of single steps
         let seq = idxs.iter().fold(mk(&mut r), |p, j| Prog::Partial(vec![*j], mode, Box::new(p)));
-        let qs = vec![Query::Vars, Query::Eval(nv)];
+        let qs = vec![Query::Vars, Query::Eval(nv), Query::Relaxed(nv.saturating_sub(1)), Query::Eval(nv.saturating_sub(1))];
         let (tb2, vars2, f2, idxs2) = (tb.clone(), vars.clone(), f.clone(), idxs.clone());
         let i1 = cs.add(&tb, prog, qs.clone(), format!("d/d{idxs:?} {text}"), if out_of_range { "index-out-of-range" } else { "index-sequence" }, n_operands(&ch).max(2), move |obs| {
             if out_of_range { return (Some(obs[0] == Obs::E), format!("an index >= {} must be rejected: {}", vars2.len(), pretty_obs(&obs[0]))) }
             match (&obs[0], &obs[1]) {
                 (Obs::S(v), Obs::T(d)) => {
                     if *v != vars2 { return (Some(false), format!("variables {v:?} vs {vars2:?}")) }
+                    // the same value slice evaluates both: one value too few is an error for the derivative too (also relaxed), even when the variable has vanished
+                    if vars2.len() > 0 && (!matches!(obs[2], Obs::E) || !matches!(obs[3], Obs::E)) { return (Some(false), format!("one value too few: eval_relaxed {}, eval {}", pretty_obs(&obs[2]), pretty_obs(&obs[3]))) }
                     if idxs2.is_empty() { // order zero is the identity
                         for pt in points(vars2.len()) { let (x, y) = (interp(d, &tb2, &pt), interp(&f2, &tb2, &pt)); if x.is_finite() && y.is_finite() && (x - y).abs() > 1e-9 * (1.0 + y.abs()) { return (Some(false), format!("order zero changed the value at {pt:?}: {x} vs {y}")) } }
                     }
@@ -1367,7 +1378,7 @@ fn add_named_neutral(cs: &mut CaseSet, tb: &Vec<OpSpec>) {
                     for (pa, pb) in [(nt, &ot), (&ot, nt)] {
                         let (prog, want, vars) = comb(k, pa, pb);
                         let nv = vars.len();
-                        let qs = vec![Query::Vars, Query::Eval(nv), Query::Eval(nv.saturating_sub(1)), Query::Eval(nv + 1)];
+                        let qs = vec![Query::Vars, Query::Eval(nv), Query::Eval(nv.saturating_sub(1)), Query::Eval(nv + 1), Query::Relaxed(nv.saturating_sub(1)), Query::Relaxed(nv + 1)];
                         let (tb2, vars2) = (tb.clone(), vars.clone());
                         cs.add(&tb, prog, qs, "neutral element with names".to_string(), "shortcuts-named-neutral", 3, move |obs| {
                             match (&obs[0], &obs[1]) {
@@ -1376,6 +1387,9 @@ fn add_named_neutral(cs: &mut CaseSet, tb: &Vec<OpSpec>) {
                                     if *v != vars2 { return (Some(false), format!("variables {v:?}, expected the sorted union {vars2:?}")) }
                                     if vars2.len() > 0 && !matches!(obs[2], Obs::E) { return (Some(false), format!("evaluation with one value too few: {}", pretty_obs(&obs[2]))) }
                                     if !matches!(obs[3], Obs::E) { return (Some(false), format!("evaluation with one value too many: {}", pretty_obs(&obs[3]))) }
+                                    // the relaxed evaluation: too few values are an error although the variable that has no value may not occur any more; surplus values are ignored
+                                    if vars2.len() > 0 && !matches!(obs[4], Obs::E) { return (Some(false), format!("eval_relaxed with one value too few: {}", pretty_obs(&obs[4]))) }
+                                    if !matches!(obs[5], Obs::T(_)) { return (Some(false), format!("eval_relaxed with one value too many: {}", pretty_obs(&obs[5]))) }
                                     for pt in points(vars2.len()) {
                                         let w = interp(&want, &tb2, &pt);
                                         if !all_finite(&want, &tb2, &pt) { continue }
@@ -1415,7 +1429,7 @@ pub fn c10s(a: &Args) -> CaseSet {
         let steps = 1 + r.below(6);
         for _ in 0..steps {
             let (i, j) = (r.below(pool.len()), r.below(pool.len()));
-            let k = r.below(6);
+            let k = r.below(9);
             let (pa, ta, va) = pool[i].clone(); let (pb, tbm, vb) = pool[j].clone();
             let mut vars: Vec<String> = va.iter().chain(vb.iter()).cloned().collect(); vars.sort(); vars.dedup();
             let remap = |t: &Term, from: &[String]| -> Term { fn go(t: &Term, from: &[String], to: &[String]) -> Term { match t { Term::Var(i) => Term::Var(to.iter().position(|v| *v == from[*i]).unwrap()), Term::Un(k, a) => Term::Un(*k, Box::new(go(a, from, to))), Term::Bin(k, a, b) => Term::Bin(*k, Box::new(go(a, from, to)), Box::new(go(b, from, to))), x => x.clone() } } go(t, from, &vars) };
@@ -1423,7 +1437,13 @@ pub fn c10s(a: &Args) -> CaseSet {
             let (np, nt, nv) = if k < 5 {
                 let name = ["+", "-", "*", "/", "^"][k];
                 (Prog::Arith(k, Box::new(pa), Box::new(pb)), tbin(op_idx(&tb, name), ra, rb), vars.clone())
-            } else { (Prog::Neg(Box::new(pa)), tun(op_idx(&tb, "-"), ta.clone()), va.clone()) };
+            } else if k == 5 { (Prog::Neg(Box::new(pa)), tun(op_idx(&tb, "-"), ta.clone()), va.clone()) }
+            else {
+                // a unary operator (by name, or through the named helper) on top of what the shortcuts returned
+                let name = ["cos", "exp", "sin", "abs", "cosh"][r.below(5)];
+                let p = if k == 6 { Prog::Un(name.into(), Box::new(pa)) } else { Prog::HelperUn(name.into(), Box::new(pa)) };
+                (p, tun(op_idx(&tb, name), ta.clone()), va.clone())
+            };
             pool.push((np, nt, nv));
         }
         let (prog, want, vars) = pool.last().unwrap().clone();
@@ -1446,6 +1466,50 @@ pub fn c10s(a: &Args) -> CaseSet {
                 _ => (Some(false), format!("{} / {}", pretty_obs(&obs[0]), pretty_obs(&obs[1]))),
             }
         });
+    }
+    // a neutral element that a shortcut returned (a plain number that still carries variable names), a unary operator
+    // on top of it (by name or through the named helper), and the result as an operand of every overloaded operator on
+    // either side: the unary operator must not be forgotten by the next shortcut test
+    {
+        let v = |n: &str| Prog::Deep(n.to_string());
+        let tv = |i: usize| Term::Var(i);
+        let tl = |n: &str| Term::Lit(n.to_string());
+        let o = |n: &str| op_idx(&tb, n);
+        // (program, its term over [x, y], i.e. x = Var 0, y = Var 1)
+        let neutrals: Vec<(Prog, Term)> = vec![
+            (Prog::Arith(2, Box::new(v("0")), Box::new(v("y"))), tbin(o("*"), tl("0"), tv(1))),
+            (Prog::Arith(2, Box::new(v("y")), Box::new(v("0"))), tbin(o("*"), tv(1), tl("0"))),
+            (Prog::Arith(3, Box::new(v("0")), Box::new(v("y"))), tbin(o("/"), tl("0"), tv(1))),
+            (Prog::Arith(4, Box::new(v("y")), Box::new(v("0"))), tbin(o("^"), tv(1), tl("0"))),
+            (Prog::Arith(4, Box::new(v("1")), Box::new(v("y"))), tbin(o("^"), tl("1"), tv(1))),
+            (Prog::Arith(1, Box::new(v("y")), Box::new(v("y"))), tbin(o("-"), tv(1), tv(1))),
+        ];
+        let mut count = 0usize;
+        for (ni, (np, nt)) in neutrals.iter().enumerate() { for (ui, un) in ["cos", "exp", "sin", "-", "abs", "ln", "cosh"].iter().enumerate() { for k in 0..5usize { for side in 0..2usize {
+            count += 1;
+            if !(a.thorough || (ni + ui + k + side) % 3 == 0) { continue }
+            let up = match (ui + k) % 3 { 0 => Prog::Un(un.to_string(), Box::new(np.clone())), 1 => Prog::HelperUn(un.to_string(), Box::new(np.clone())), _ => if *un == "-" { Prog::Neg(Box::new(np.clone())) } else { Prog::Un(un.to_string(), Box::new(np.clone())) } };
+            let ut = tun(o(un), nt.clone());
+            let name = ["+", "-", "*", "/", "^"][k];
+            let (prog, want) = if side == 0 { (Prog::Arith(k, Box::new(v("x")), Box::new(up)), tbin(o(name), tv(0), ut)) } else { (Prog::Arith(k, Box::new(up), Box::new(v("x"))), tbin(o(name), ut, tv(0))) };
+            let vars2 = vec!["x".to_string(), "y".to_string()]; let tb2 = tb.clone();
+            cs.add(&tb, prog, vec![Query::Vars, Query::Eval(2)], format!("unary {un} over neutral #{ni}, then {name} (side {side})"), "unary-over-neutral", 4, move |obs| {
+                match (&obs[0], &obs[1]) {
+                    (Obs::E, _) => (None, "rejected (0^0)".into()),
+                    (Obs::S(vs), Obs::T(got)) => {
+                        if *vs != vars2 { return (Some(false), format!("variables {vs:?}, expected {vars2:?}")) }
+                        for pt in points(2) {
+                            if !all_finite(&want, &tb2, &pt) { continue }
+                            let (g, w) = (interp(got, &tb2, &pt), interp(&want, &tb2, &pt));
+                            if !(g == w || (g - w).abs() <= 1e-9 * (1.0 + w.abs())) { return (Some(false), format!("value {g} vs unsimplified {w} at {pt:?}")) }
+                        }
+                        (Some(true), String::new())
+                    }
+                    _ => (Some(false), format!("{} / {}", pretty_obs(&obs[0]), pretty_obs(&obs[1]))),
+                }
+            });
+        } } } }
+        let _ = count;
     }
     add_named_neutral(&mut cs, &tb);
     cs
